@@ -4,8 +4,13 @@ use crate::ctx::Ctx;
 use crate::drive::Case;
 
 pub mod c01;
+pub mod c02;
 pub mod c05;
 pub mod c06;
+pub mod c14;
+pub mod c16;
+pub mod c17;
+pub mod c18;
 
 pub struct Prop {
     pub id: &'static str,
@@ -31,5 +36,5 @@ pub const COMMON_ASSUMPTIONS: [&str; 4] = [
 ];
 
 pub fn registry() -> Vec<Prop> {
-    vec![c01::prop(), c05::prop(), c06::prop()]
+    vec![c01::prop(), c02::prop(), c05::prop(), c06::prop(), c14::prop(), c16::prop(), c17::prop(), c18::prop()]
 }
